@@ -294,6 +294,12 @@ PROPS['C16']['contracts'] = PROPS['C16']['contracts'] + DEC_REGIONS[2:5]
 REAL = [(D, 'ber.decoder::RealPayloadDecoder.valueDecoder[complete]')]
 for _p in ('C08', 'C09'):
     PROPS[_p]['contracts'] = PROPS[_p]['contracts'] + REAL
+CERBOOL = [(D, 'cer.decoder::BooleanPayloadDecoder.valueDecoder[complete]')]
+for _p in ('C15', 'C09', 'C02'):
+    PROPS[_p]['contracts'] = PROPS[_p]['contracts'] + CERBOOL
+DECODE = [(D, 'ber.decoder::Decoder.__call__')]
+for _p in ('C07', 'C06', 'C01'):
+    PROPS[_p]['contracts'] = PROPS[_p]['contracts'] + DECODE
 BS = 'contracts.base'
 BASE = [(BS, 'type.base::SimpleAsn1Type.__init__'), (BS, 'type.base::SimpleAsn1Type.clone'),
         (BS, 'type.base::SimpleAsn1Type.subtype')]
@@ -302,7 +308,11 @@ for _p in ('C14', 'C10'):
     PROPS[_p]['tables'] = PROPS[_p]['tables'] + ['value-funnel']
 PROPS['C12']['contracts'] = PROPS['C12']['contracts'] + BASE[1:]
 TG = 'contracts.tag'
-TAGS = [(TG, 'type.tag::TagSet.tagImplicitly'), (TG, 'type.tag::TagSet.tagExplicitly')]
+TAGS = [(TG, 'type.tag::TagSet.tagImplicitly'), (TG, 'type.tag::TagSet.tagExplicitly'),
+        (TG, 'type.tag::TagSet.isSuperTagSetOf')]
+TAGMAP = [(TG, 'type.tagmap::TagMap.__getitem__'), (TG, 'type.tagmap::TagMap.__contains__')]
+for _p in ('C13', 'C15', 'C16'):
+    PROPS[_p]['contracts'] = PROPS[_p]['contracts'] + TAGMAP
 PROPS['C13']['contracts'] = PROPS['C13']['contracts'] + TAGS
 PROPS['C13']['level_text'] = ('Identifier octets equal X.690 8.1.2 for every class/format/number (encodeTag) and are parsed back by '
                               'the tag region of the decoder (any long form, base-128 value, cache invariant); one header per tag from '
